@@ -16,6 +16,12 @@ unsigned long vx_ext_parse(int which, const char *text, unsigned long len, int b
     *throws = in_throws; *pos = in_pos;
     return in_val;
 }
+unsigned vx_ext_ufs_rec(const char *text, unsigned long len, int base, int *throws, unsigned long *pos) {
+    g_calls++; g_which = 9; g_argbase = base; g_arglen = len;
+    for (unsigned long i = 0; i < VX_LEN + 4; i++) g_arg[i] = (i < len) ? text[i] : 0;
+    *throws = in_throws; *pos = in_pos;
+    return (unsigned)in_val;
+}
 /* ---- specification helpers over the input literal ---- */
 static _Bool starts(const char *p) { unsigned long i = 0; for (; p[i]; i++) if (i >= in_len || in_s[i] != p[i]) return 0; return 1; }
 /* expected text handed to the parser: the literal with `skip` leading characters removed, optionally re-prefixed with '-' */
@@ -53,6 +59,14 @@ __CPROVER_ensures((g_threw != 0) == in_throws)
 __CPROVER_ensures(g_threw == 0 ==> ((long)__CPROVER_return_value == (long)in_val && (position == NULL || g_pos == in_pos + (s_base() == 2 ? 2ul : 0ul))))
 __CPROVER_assigns(g_arg, g_arglen, g_argbase, g_which, g_calls, g_threw, g_pos);
 
+/* CSV unsigned column */
+unsigned h_rru(const char *text, unsigned long len, unsigned long *charactersRead)
+__CPROVER_requires(text == in_s && len == in_len && len >= 1 && len <= VX_LEN && charactersRead == &g_pos && g_threw == 0 && g_calls == 0 && in_pos < (1ul << 62))
+__CPROVER_ensures(g_calls == 1 && arg_is(0, 0) && g_argbase == (starts("0b") ? 2 : (starts("0x") ? 16 : 10)))
+__CPROVER_ensures((g_threw != 0) == in_throws)
+__CPROVER_ensures(g_threw == 0 ==> (__CPROVER_return_value == (unsigned)in_val && g_pos == in_pos))
+__CPROVER_assigns(g_arg, g_arglen, g_argbase, g_which, g_calls, g_threw, g_pos);
+
 /* complete-literal test used by the type checker for program constants */
 _Bool h_can(const char *text, unsigned long len, _Bool is_unsigned)
 __CPROVER_requires(text == in_s && len == in_len && len <= VX_LEN && is_unsigned == in_unsigned && g_threw == 0 && g_calls == 0 && in_pos < (1ul << 62))
@@ -77,4 +91,5 @@ static void inputs(void) {
 }
 void harness_u(void) { inputs(); h_ufs(in_s, in_len, in_pos_null ? NULL : &g_pos, in_base); CANARY; }
 void harness_s(void) { inputs(); h_sfs(in_s, in_len, in_pos_null ? NULL : &g_pos, in_base); CANARY; }
+void harness_rru(void) { inputs(); __CPROVER_assume(in_len >= 1); h_rru(in_s, in_len, &g_pos); CANARY; }
 void harness_can(void) { inputs(); in_base = 0; if (!in_unsigned) __CPROVER_assume(s_base() != 2 || starts("0b") || starts("-0b")); h_can(in_s, in_len, in_unsigned); CANARY; }
